@@ -1,0 +1,35 @@
+//go:build verif
+
+// Contracts for package eventlog (extract), checked by /verif (govc). Comment-only; compiled only under
+// -tags verif.
+package eventlog
+
+//@ func variableLocatorDecode
+//@   assigns nothing
+//@   sweep[C07]
+//@   ensures[C07] err == nil ==> len(result1) >= 2 && len(result1) % 2 == 0 && len(result1) == len(loc) - 16
+
+//@ func Locate
+//@   requires opts != nil
+//@   sweep[C07] nil index slice div makeslice typeassert panic
+//@   modifies *
+
+//@ func RIMEventsFromEventLog
+//@   requires el != nil
+//@   sweep[C07] index slice div makeslice panic nilmap
+//@   loop 1 invariant result != nil && fresh(result)
+
+// Confinement (C16): the only file ever read is the path securejoin returned for the configured root.
+//@ func (*EfiVarFSReader).varBasename
+//@   requires r != nil
+//@   assigns nothing
+//@   modifies rdLeft
+//@   ensures[C16] err == nil ==> confinedTo(r.Root, result0)
+
+//@ func (*EfiVarFSReader).ReadVariable
+//@   requires r != nil
+//@   assigns nothing
+//@   modifies rdLeft
+//@   sweep[C07] index slice
+//@   atcall ReadFile requires[C16] confinedTo(r.Root, p0)
+//@   ensures[C16] true
